@@ -1,0 +1,13 @@
+//go:build !verif
+
+package iobroker
+
+/*
+ * verif_off.go
+ * Verification hook points, compiled out
+ */
+
+import "context"
+
+// verifPoint is a no-op unless built with -tags verif.
+func verifPoint(context.Context, string, sDirection, string) {}
